@@ -98,6 +98,7 @@ func parseContractFile(path string, pc *PkgContracts) error {
 	var cur *FuncContract
 	var last *Clause
 	lastLet := false
+	inTemplate := false
 	var lastMod *FuncContract
 	for i, line := range strings.Split(string(data), "\n") {
 		l := strings.TrimSpace(line)
@@ -112,6 +113,18 @@ func parseContractFile(path string, pc *PkgContracts) error {
 		}
 		if body == "" || strings.HasPrefix(body, "--") {
 			continue
+		}
+		if strings.HasPrefix(body, "template ") {
+			// a contract template (instantiated mechanically elsewhere): documentation for this parser
+			inTemplate = true
+			continue
+		}
+		if inTemplate {
+			if strings.HasPrefix(body, "func ") {
+				inTemplate = false
+			} else {
+				continue
+			}
 		}
 		if j := strings.Index(body, " -- "); j >= 0 {
 			body = strings.TrimSpace(body[:j])
